@@ -247,6 +247,58 @@ example : exampleRequest.kern = .simd ∧ exampleRequest.sat = false ∧ 0 < exa
     (1 + 1) * exampleRequest.k ≤ exampleRequest.a.length ∧
     gemm exampleRequest = [23171, -30804, -34051, 29081] := by decide
 
+theorem colOf_allIn (lo hi : Int) (h0 : lo ≤ 0 ∧ 0 ≤ hi) (n j : Nat) :
+    ∀ (k : Nat) (b : List Int), AllIn lo hi b → AllIn lo hi (colOf n k b j) := by
+  intro k
+  induction k with
+  | zero => intro b _ x hx; simp [colOf] at hx
+  | succ k ih =>
+    intro b hb x hx
+    simp only [colOf, List.mem_cons] at hx
+    rcases hx with rfl | hx
+    · exact getD_allIn lo hi h0 b hb j
+    · exact ih (b.drop n) (hb.drop _) x hx
+
+/-- **C17.T2 composed with T1c** (no `wrap32`, no defaulting): for a *well-formed* request
+(`Request.WF`: every tensor has the announced size, so no `getD` default is ever taken), indices in
+range, `u8`/`i8` values and zero points, `K ≤ 33025`, `beta = 0` and a kernel that cannot saturate,
+the value the model computes is exactly `Σ_k (a_ik − za_i)(b_kj − zb_j)` — packed GEMM path or gemv
+path, prepacked or not. -/
+theorem c17_gemm_entry_no_overflow (r : Request) (i j : Nat) (hwf : r.WF) (hi : i < r.m)
+    (_hj : j < r.n) (hk : r.kern = .simd) (hsat : r.sat = false) (hkc : 0 < r.kc)
+    (ha : AllIn 0 255 r.a) (hb : AllIn (-128) 127 r.b)
+    (hza : ∀ l, r.za = some l → AllIn 0 255 l) (hzb : ∀ l, r.zb = some l → AllIn (-128) 127 l)
+    (hK : r.k ≤ 33025) (hc0 : r.c0 = none) :
+    entry r i j = dotZ ((r.za.map (·.getD i 0)).getD 0) ((r.zb.map (·.getD j 0)).getD 0)
+      (rowOf r.k r.a i) (colOf r.n r.k r.b j) := by
+  have hik : (i + 1) * r.k ≤ r.a.length := by
+    rw [hwf.a_len]; exact Nat.mul_le_mul_right _ hi
+  rw [c17_gemm_entry_exact r i j hk hsat hkc hik, hc0]
+  simp only [Option.map_none, Option.getD_none, Int.add_zero]
+  have hrow : AllIn 0 255 (rowOf r.k r.a i) := (ha.drop _).take _
+  have hcol := colOf_allIn (-128) 127 (by omega) r.n j r.k r.b hb
+  have hzai : 0 ≤ (r.za.map (·.getD i 0)).getD 0 ∧ (r.za.map (·.getD i 0)).getD 0 ≤ 255 := by
+    cases hz : r.za with
+    | none => simp
+    | some l => simpa using getD_allIn 0 255 (by omega) l (hza l hz) i
+  have hzbj : -128 ≤ (r.zb.map (·.getD j 0)).getD 0 ∧ (r.zb.map (·.getD j 0)).getD 0 ≤ 127 := by
+    cases hz : r.zb with
+    | none => simp
+    | some l => simpa using getD_allIn (-128) 127 (by omega) l (hzb l hz) j
+  exact c17_no_i32_overflow _ _ hzai hzbj _ _ hrow hcol (by rw [rowOf_length r.k r.a i hik]; exact hK)
+
+def errOf {α : Type} : Except GemmErr α → Option GemmErr
+  | .error e => some e
+  | .ok _ => none
+
+/-- Non-vacuity: `exampleRequest` is well formed and meets every hypothesis. -/
+example : exampleRequest.a.length = exampleRequest.m * exampleRequest.k ∧
+    exampleRequest.b.length = exampleRequest.k * exampleRequest.n ∧
+    (gemmChecked exampleRequest 4).toOption = some [23171, -30804, -34051, 29081] ∧
+    errOf (gemmChecked exampleRequest 5) = some .outputSizeMismatch ∧
+    errOf (checkGemmArgs 2 5 4 2 none none 4) = some .kSizeMismatch ∧
+    errOf (checkGemmArgs 2 5 5 2 (some 3) none 4) = some .wrongQuantParamSize := by decide
+
 /-- Request with B prepacked and a non-zero B zero point. -/
 def prepackedRequest : Request :=
   { kern := .simd, sat := false, kc := 1024, gemv := false, bKind := .unitColStride, lanes := 32,
